@@ -72,6 +72,10 @@ class Site:
         return f"{self.mod.name}::{self.cls.name}.{self.method.name}"
 
 
+def _all_service_modules():
+    return [m for m in ri.all_modules() if m.name.startswith(SERVICE_PKG + ".")]
+
+
 def _service_modules():
     return [m for m in ri.all_modules() if m.name.startswith(SERVICE_PKG + ".") and "get_or_create" in m.source]
 
@@ -410,6 +414,33 @@ def _e_invalidation(chk, sites, rule="C20.e", only_classes=None):
                         chk.check(not missing, rule, construct,
                                   f"{meth.name}() assigns self.{t.attr} and drops only the cache entries tagged {sorted(tags)}; entries tagged {missing} are also computed from "
                                   f"{t.attr} and stay cached with the old value", sample=f"{meth.name}: partial reset covers {sorted(needed)}")
+    # recorded slots: `self.R = self.get_or_create(key, factory)` keeps the last value outside the cache; whoever changes an
+    # attribute that factory reads and drops the cache must also clear R (or R keeps showing the value of the old state)
+    for (mname, cname), ss in by_cls.items():
+        if only_classes is not None and cname not in only_classes:
+            continue
+        mod, cls = ss[0].mod, ss[0].cls
+        slots = {}
+        for s_ in ss:
+            par = getattr(s_.call, "_parent", None)
+            if isinstance(par, ast.Assign) and len(par.targets) == 1 and isinstance(par.targets[0], ast.Attribute) and isinstance(par.targets[0].value, ast.Name) \
+                    and par.targets[0].value.id == "self":
+                slots[par.targets[0].attr] = s_
+        for R, s_ in slots.items():
+            reads = _factory_reads(s_)
+            for meth in [f for f in cls.body if isinstance(f, ast.FunctionDef) and f.name not in ("__init__", "__setstate__", "__getstate__") and f is not s_.method]:
+                changed = sorted({t.attr for st in ast.walk(meth) if isinstance(st, (ast.Assign, ast.AugAssign)) for t in (st.targets if isinstance(st, ast.Assign) else [st.target])
+                                  if isinstance(t, ast.Attribute) and isinstance(t.value, ast.Name) and t.value.id == "self" and t.attr in reads and t.attr != R
+                                  and not (isinstance(st, ast.Assign) and isinstance(st.value, ast.Constant) and st.value.value is None)
+                                  and not _under_none_guard(meth, st, t.attr)})
+                has_reset = any(isinstance(c, ast.Call) and isinstance(c.func, ast.Attribute) and c.func.attr in ("reset", "clear_caches") for c in ast.walk(meth))
+                if not changed or not has_reset:
+                    continue
+                clears = any(isinstance(st, ast.Assign) and any(isinstance(t, ast.Attribute) and t.attr == R and isinstance(t.value, ast.Name) and t.value.id == "self" for t in st.targets)
+                             for st in ast.walk(meth))
+                chk.check(clears, rule, f"{mname}::{cname}.{meth.name}[slot self.{R}]",
+                          f"{meth.name}() changes {changed} and drops the cache but leaves self.{R}, which records the last value computed from them by {s_.method.name}(): "
+                          f"readers of {R} keep seeing the value of the old state", sample=f"{meth.name}: self.{R} cleared together with the cache")
     if only_classes is None:
         chk.floor("assignments of factory-read attributes examined", n, 2)
     return n
@@ -540,3 +571,26 @@ def _h_reload(chk):
                       f"{cls.name} can be unpickled without rebuilding its services (no __setstate__ calling _setup_services in its hierarchy below _HitenBase): a reloaded "
                       f"object would carry no / stale services", sample=f"{cls.name}: __setstate__ -> _setup_services(...)", nontrivial=False)
     chk.floor("_HitenBase subclasses examined", n, 8)
+    # _setup_services restores the pickled computed state onto the services and THEN may call dynamics.reset(): a reset that
+    # writes anything but the cache would wipe what was just restored (part of the save/load clause that is decidable)
+    cmod, ccls = ri.find_def("hiten.algorithms.types.core", "_HitenBase")
+    setup = next((f for f in ccls.body if isinstance(f, ast.FunctionDef) and f.name == "_setup_services"), None)
+    if setup is None:
+        raise AnalysisError("anchor: _HitenBase._setup_services not found")
+    restore = [c for c in ast.walk(setup) if isinstance(c, ast.Call) and isinstance(c.func, ast.Name) and c.func.id == "setattr"]
+    resets = [c for c in ast.walk(setup) if isinstance(c, ast.Call) and isinstance(c.func, ast.Attribute) and c.func.attr == "reset"]
+    if restore and resets and min(c.lineno for c in resets) > max(c.lineno for c in restore):
+        k = 0
+        for m in _all_service_modules():
+            for cls in [c for c in m.tree.body if isinstance(c, ast.ClassDef)]:
+                for f in [f for f in cls.body if isinstance(f, ast.FunctionDef) and f.name == "reset"]:
+                    k += 1
+                    writes = sorted({t.attr for st in ast.walk(f) if isinstance(st, (ast.Assign, ast.AugAssign, ast.Delete))
+                                     for t in (st.targets if isinstance(st, (ast.Assign, ast.Delete)) else [st.target])
+                                     if isinstance(t, ast.Attribute) and isinstance(t.value, ast.Name) and t.value.id == "self" and t.attr not in ("_cache",)})
+                    chk.check(not writes, "C20.h", f"{m.name}::{cls.name}.reset[writes]",
+                              f"{cls.name}.reset() also writes {writes}; _setup_services calls reset() after it has restored the pickled state, so a reloaded object loses these values",
+                              sample=f"{cls.name}.reset touches only the cache", nontrivial=False)
+        chk.floor("reset() definitions in the service package", k, 2)
+    else:
+        chk.note("_setup_services no longer restores state before calling reset(): reset-override rule not applicable")
